@@ -95,6 +95,8 @@ def h_final_structure(ctx, base, nsym=1, permute=0):
     """C16: after a successful history every report works and equals that of a system built from scratch with the
     same final structure (in a different insertion order when permute > 0)."""
     sysobj, m = hist.replay_base(hist.BASES[base])
+    if nsym:
+        hist.reports(sysobj)  # an analysis BEFORE the last edit: nothing an analysis may cache can survive an edit
     for k in range(nsym):
         op = hist.symbolic_call(ctx, m, "c%d" % k, ALL_OPS)
         exc = _try(sysobj, op)
